@@ -7,7 +7,7 @@ import (
 )
 
 const (
-	MinReduceMaxAttributes = 1
+	MinReduceMaxAttributes = 0
 	MaxReduceMaxAttributes = 2
 )
 
@@ -28,7 +28,7 @@ func newReduceMax() ops.Operator {
 // Init initializes the reduceMax operator.
 func (r *ReduceMax) Init(n *onnx.NodeProto) error {
 	attributes := n.GetAttribute()
-	if len(attributes) == 0 || len(attributes) > MaxReduceMaxAttributes {
+	if len(attributes) > MaxReduceMaxAttributes {
 		return ops.ErrInvalidOptionalAttributeCount(MinReduceMaxAttributes, MaxReduceMaxAttributes, len(attributes), r)
 	}
 
